@@ -72,31 +72,26 @@ def Dtype.isComposite : Dtype → Bool
 
 /-! ### small facts -/
 
-theorem Fields.append_nil (f : Fields) : f.append .nil = f := by
-  induction f with
-  | nil => rfl
-  | cons n d r ih => simp [Fields.append, ih]
+theorem Fields.append_nil : (f : Fields) → f.append .nil = f
+  | .nil => rfl
+  | .cons n d r => by simp [Fields.append, Fields.append_nil r]
 
-theorem Fields.snoc_eq_append (f : Fields) (n : String) (d : Dtype) :
-    f.snoc n d = f.append (.cons n d .nil) := by
-  induction f with
-  | nil => rfl
-  | cons m e r ih => simp [Fields.snoc, Fields.append, ih]
+theorem Fields.snoc_eq_append : (f : Fields) → (n : String) → (d : Dtype) →
+    f.snoc n d = f.append (.cons n d .nil)
+  | .nil, _, _ => rfl
+  | .cons m e r, n, d => by simp [Fields.snoc, Fields.append, Fields.snoc_eq_append r n d]
 
-theorem Fields.append_assoc (f g h : Fields) : (f.append g).append h = f.append (g.append h) := by
-  induction f with
-  | nil => rfl
-  | cons m e r ih => simp [Fields.append, ih]
+theorem Fields.append_assoc : (f g h : Fields) → (f.append g).append h = f.append (g.append h)
+  | .nil, _, _ => rfl
+  | .cons m e r, g, h => by simp [Fields.append, Fields.append_assoc r g h]
 
-theorem Fields.names_append (f g : Fields) : (f.append g).names = f.names ++ g.names := by
-  induction f with
-  | nil => rfl
-  | cons m e r ih => simp [Fields.append, Fields.names, ih]
+theorem Fields.names_append : (f g : Fields) → (f.append g).names = f.names ++ g.names
+  | .nil, _ => rfl
+  | .cons m e r, g => by simp [Fields.append, Fields.names, Fields.names_append r g]
 
-theorem Fields.names_norm (f : Fields) : f.norm.names = f.names := by
-  induction f with
-  | nil => simp [Fields.norm]
-  | cons m e r ih => simp [Fields.norm, Fields.names, ih]
+theorem Fields.names_norm : (f : Fields) → f.norm.names = f.names
+  | .nil => by simp [Fields.norm]
+  | .cons m e r => by simp [Fields.norm, Fields.names, Fields.names_norm r]
 
 theorem Dtype.depth_pos (d : Dtype) : 1 ≤ d.depth := by
   cases d <;> simp [Dtype.depth]
@@ -144,22 +139,25 @@ theorem enum_json (b : Int) (es : List Json) (hb : Gen.enumWritesBytes = true) :
               ++ (if Gen.enumWritesBytes then [("bytes", .num b)] else []))
     (j.get "type").toStr? = some "enum" ∧ ((j.get "name").toStr?).getD "" = n ∧
     j.has "enumerators" = true ∧ j.get "enumerators" = .arr es ∧ j.get "bytes" = .num b := by
-  rcases nameEntry_cases n with ⟨h1, h2⟩ | ⟨_, h2⟩ <;>
-    simp [h2, hb, Json.get, Json.has, List.find?, Json.toStr?, *]
+  rcases nameEntry_cases n with ⟨h1, h2⟩ | ⟨_, h2⟩
+  · subst h1; simp [h2, hb, Json.get, Json.has, List.find?, Json.toStr?]
+  · simp [h2, hb, Json.get, Json.has, List.find?, Json.toStr?]
 
 theorem tuple_json (e : Json) (k : Int) :
     let j := Json.obj ([("type", .str "tuple")] ++ nameEntry n ++ [("dtype", e), ("size", .num k)])
     (j.get "type").toStr? = some "tuple" ∧ ((j.get "name").toStr?).getD "" = n ∧
     j.has "dtype" = true ∧ j.has "size" = true ∧ j.get "dtype" = e ∧ j.get "size" = .num k := by
-  rcases nameEntry_cases n with ⟨h1, h2⟩ | ⟨_, h2⟩ <;>
-    simp [h2, Json.get, Json.has, List.find?, Json.toStr?, *]
+  rcases nameEntry_cases n with ⟨h1, h2⟩ | ⟨_, h2⟩
+  · subst h1; simp [h2, Json.get, Json.has, List.find?, Json.toStr?]
+  · simp [h2, Json.get, Json.has, List.find?, Json.toStr?]
 
 theorem fields_json (tag : String) (fs : List Json) :
     let j := Json.obj ([("type", .str tag)] ++ nameEntry n ++ [("fields", .arr fs)])
     (j.get "type").toStr? = some tag ∧ ((j.get "name").toStr?).getD "" = n ∧
     j.has "fields" = true ∧ j.get "fields" = .arr fs := by
-  rcases nameEntry_cases n with ⟨h1, h2⟩ | ⟨_, h2⟩ <;>
-    simp [h2, Json.get, Json.has, List.find?, Json.toStr?, *]
+  rcases nameEntry_cases n with ⟨h1, h2⟩ | ⟨_, h2⟩
+  · subst h1; simp [h2, Json.get, Json.has, List.find?, Json.toStr?]
+  · simp [h2, Json.get, Json.has, List.find?, Json.toStr?]
 
 end lookups
 
@@ -171,12 +169,10 @@ theorem enumGo_toJson (es : List String) : ∀ acc : List String, (acc ++ es).No
   | nil => intro acc _; simp [enumeratorsJson, enumGo, pure, Except.pure]
   | cons e r ih =>
     intro acc h
-    have hnot : acc.contains e = false := by
-      have : e ∉ acc := by
-        intro hm
-        have := List.nodup_append.mp h
-        exact this.2.2 e hm e (by simp) rfl
-      simpa using this
+    have hnot : e ∉ acc := by
+      intro hm
+      have := List.nodup_append.mp h
+      exact this.2.2 e hm e (by simp) rfl
     have h' : ((acc ++ [e]) ++ r).Nodup := by simpa using h
     have := ih (acc ++ [e]) h'
     simp only [enumeratorsJson, List.map_cons] at this ⊢
@@ -203,6 +199,7 @@ mutual
         have hl := enum_json n b (enumeratorsJson es) hE
         simp only [Dtype.toJson]
         obtain ⟨t1, t2, t3, t4, t5⟩ := hl
+        generalize Json.obj _ = j at t1 t2 t3 t4 t5 ⊢
         have hgo : enumGo (enumeratorsJson es) [] = .ok es := by
           have := enumGo_toJson es [] (by simpa [Dtype.WF] using hwf)
           simpa using this
@@ -212,6 +209,7 @@ mutual
         have hl := tuple_json n (e.toJson "") k
         simp only [Dtype.toJson]
         obtain ⟨t1, t2, t3, t4, t5, t6⟩ := hl
+        generalize Json.obj _ = j at t1 t2 t3 t4 t5 t6 ⊢
         have he : e.depth ≤ f := by simp [Dtype.depth] at hfuel; omega
         have ih := Dtype.fromJson_toJson hE hR hI e "" f (by simpa [Dtype.WF] using hwf) he
         simp [Dtype.fromJson, t1, t2, t3, t4, t5, t6, Json.isNumber, Json.toInt, ih, Dtype.norm, pure, Except.pure]
@@ -219,6 +217,7 @@ mutual
         have hl := fields_json n "struct" fs.toJson
         simp only [Dtype.toJson]
         obtain ⟨t1, t2, t3, t4⟩ := hl
+        generalize Json.obj _ = j at t1 t2 t3 t4 ⊢
         have hd : fs.depth ≤ f := by simp [Dtype.depth] at hfuel; omega
         have hw : fs.WF ∧ fs.names.Nodup := by simpa [Dtype.WF] using hwf
         have ih := Fields.fromJson_toJson hE hR hI fs f .nil hw.1 hd (by simpa [Fields.names] using hw.2)
@@ -228,6 +227,7 @@ mutual
         have hl := fields_json n "union" fs.toJson
         simp only [Dtype.toJson]
         obtain ⟨t1, t2, t3, t4⟩ := hl
+        generalize Json.obj _ = j at t1 t2 t3 t4 ⊢
         have hd : fs.depth ≤ f := by simp [Dtype.depth] at hfuel; omega
         have hw : fs.WF ∧ fs.names.Nodup := by simpa [Dtype.WF] using hwf
         have ih := Fields.fromJson_toJson hE hR hI fs f .nil hw.1 hd (by simpa [Fields.names] using hw.2)
@@ -245,19 +245,19 @@ mutual
       have hd : d.depth ≤ fuel ∧ r.depth ≤ fuel := by
         simp only [Fields.depth] at hfuel; omega
       have ih1 := Dtype.fromJson_toJson hE hR hI d "" fuel hw.1 hd.1
-      have hnot : acc.names.contains fname = false := by
-        have : fname ∉ acc.names := by
-          intro hm
-          have := List.nodup_append.mp hnd
-          exact this.2.2 fname hm fname (by simp [Fields.names]) rfl
-        simpa using this
+      have hnot : fname ∉ acc.names := by
+        intro hm
+        have := List.nodup_append.mp hnd
+        exact this.2.2 fname hm fname (by simp [Fields.names]) rfl
       have hnd' : ((acc.snoc fname (Dtype.norm "" d)).names ++ r.names).Nodup := by
         rw [Fields.snoc_eq_append, Fields.names_append]
         simpa [Fields.names] using hnd
       have ih2 := Fields.fromJson_toJson hE hR hI r fuel (acc.snoc fname (Dtype.norm "" d)) hw.2 hd.2 hnd'
       simp only [Fields.toJson]
       simp only [fieldsGo, Json.has, Json.get, List.find?, List.any]
-      simp [ih1, hnot, ih2, Fields.snoc_eq_append, Fields.append_assoc, Fields.append, Fields.norm]
+      rw [Fields.snoc_eq_append, Fields.append_assoc] at ih2
+      simp only [Fields.append] at ih2
+      simp [ih1, hnot, ih2, Fields.snoc_eq_append, Fields.norm]
 end
 
 end Occa.Dtype
